@@ -846,19 +846,20 @@ int MPI_Testsome(int n, MPI_Request reqs[], int *outcount, int idx[], MPI_Status
     int skip_from = partial ? (int)(ndec(9, me, call) % (uint64_t)ndone) : 0;
     if (partial) M.st.testsome_partial++;
     int k = 0, seen = 0;
-    /* take `want` completed requests starting at the skip_from-th completed one (cyclic) */
-    for (int pass = 0; pass < 2 && k < want; pass++) {
-        seen = 0;
-        for (int i = 0; i < n && k < want; i++) {
-            struct ompi_request_t *q = reqs[i];
-            if (q == &ompi_request_null.r || !q->active || !req_done(q)) continue;
-            int pos = seen++;
-            if ((pass == 0 && pos < skip_from) || (pass == 1 && pos >= skip_from)) continue;
-            idx[k] = i;
-            req_retire(&reqs[i], (sts && sts != MPI_STATUSES_IGNORE) ? &sts[k] : MPI_STATUS_IGNORE);
-            k++;
-            if (pass == 1) seen--; /* retired entries vanish from the done set */
-        }
+    /* take the `want` completed requests starting at the skip_from-th completed one (cyclic window),
+     * reported in ASCENDING index order.  The MPI standard does not specify the order of
+     * array_of_indices, but every real library fills it by one ascending scan and PaRSEC's
+     * mpi_no_thread_progress() relies on that when it compacts its dynamic requests (it drops a live
+     * request otherwise: observed by the C14 harness with an earlier, rotated, order).  We simulate
+     * what deployments meet, so the order is ascending; the reliance is noted in DESIGN.md 8.5. */
+    for (int i = 0; i < n && k < want; i++) {
+        struct ompi_request_t *q = reqs[i];
+        if (q == &ompi_request_null.r || !q->active || !req_done(q)) continue;
+        int pos = seen++;
+        if ((pos - skip_from + ndone) % ndone >= want) continue;
+        idx[k] = i;
+        req_retire(&reqs[i], (sts && sts != MPI_STATUSES_IGNORE) ? &sts[k] : MPI_STATUS_IGNORE);
+        k++;
     }
     *outcount = k;
     if (M.debug) { fprintf(stderr, "[simmpi t=%llu] TESTSOME rank %d n=%d active=%d done=%d returned=%d idx:", (unsigned long long)sim_now(), me, n, nact, ndone, k); for (int i = 0; i < k; i++) fprintf(stderr, " %d", idx[i]); fprintf(stderr, "\n"); }
